@@ -151,6 +151,47 @@ def special_packets(rnd):
     return out
 
 
+def jumbo_checksums(rep, rnd, tier):
+    """the UDP checksum function called directly on an IPv6 jumbogram's field list (more than 128 KiB of high-valued bytes: the plain sum of
+    the 16-bit words passes 2^32, and the first payload word is chosen so that two folds of that sum still leave a carry); judged against
+    RFC 768 / RFC 8200 arithmetic (reference of packets.py); oracle only"""
+    from schc_run import parser_for
+    fn = ComputeFunctions[[k for k in ComputeFunctions if str(getattr(k, 'value', k)) == 'UDP:Checksum'][0]][0]
+    for k in range(2 if tier == 'quick' else 6):
+        src, dst = bytes.fromhex('20010db8') + rnd.randbytes(12), bytes.fromhex('20010db8') + rnd.randbytes(12)
+        small = P.ipv6(rnd, P.udp(rnd, b'\x00' * 4, csum=None, sport=5683, dport=5684), 17, src, dst)
+        pd = parser_for('IPv6').parse(Buffer(small, len(small) * 8))
+        nbytes = rnd.choice([139998, 150000, 200000])
+        tail = bytes([rnd.choice([0xff, 0xfe, 0xff])]) * nbytes
+        hdr = small[40:48]
+        words = lambda bs: sum(struct.unpack('!%dH' % (len(bs) // 2), bs))
+        ph_ = words(src + dst + struct.pack('!I', 8 + 2 + nbytes) + b'\0\0\0\x11')
+        while ph_ >> 16:
+            ph_ = (ph_ & 0xffff) + (ph_ >> 16)
+        base = words(hdr[:6] + b'\0\0' + tail)
+        pick = None
+        for w in range(65536):
+            s_ = base + w + (ph_ if k % 2 == 0 else 0)      # the carries of the whole sum (pseudo-header included), or of the datagram alone
+            f1 = (s_ & 0xffff) + (s_ >> 16)
+            f2 = (f1 & 0xffff) + (f1 >> 16)
+            if f2 >= 0x10000:
+                pick = w
+                break
+        if pick is None:
+            pick = rnd.randrange(65536)
+        payload = struct.pack('!H', pick) + tail
+        k_ = [j for j, f in enumerate(pd.fields) if str(getattr(f.id, 'value', f.id)) == 'UDP:Checksum'][0]
+        fl = [(x.id, Buffer(b'\0\0', 16) if j == k_ else x.value) for j, x in enumerate(pd.fields)] + [('Payload', Buffer(payload, len(payload) * 8))]
+        out = obs_bits(with_timeout(lambda: fn(fl, k_), 15))
+        want = format(P.udp_checksum_v6(src, dst, hdr[:6] + b'\0\0' + payload), '016b')
+        rep.count('compute:jumbo-udp-checksum', key=('jumbo', k))
+        rep.oracle_evals += 1
+        if out != ('OK', want):
+            rep.violation('property', 'UDP checksum of an IPv6 jumbogram (%d payload bytes, first word %04x): computed %s, RFC 768 / 8200 give %s' % (len(payload), pick, str(out)[:40], want),
+                          dict(layer='compute', op='jumbo-udp-checksum', src=src.hex(), dst=dst.hex(), header=hdr.hex(), first_word=pick, tail_byte=tail[0], tail_bytes=nbytes))
+            return
+
+
 def fields_tokens(fl):
     t = [str(len(fl))]
     for fid, bits in fl:
@@ -161,6 +202,7 @@ def fields_tokens(fl):
 def run(rep, tier, seed):
     rnd = rng_for(seed, 'C09')
     b = Batch(rep)
+    jumbo_checksums(rep, rng_for(seed, 'C09-jumbo'), tier)
     from schc_run import parser_for
     n = 600 if tier == 'quick' else 6000
     items = []
